@@ -260,8 +260,69 @@ def run(repo, chk):
         chk.expect(okdf, "R-C16-4", "get_results builds %s tables with data and column labels from the same name list, indexed by results.time" % res, loc(gr))
     chk.floor("R-C16-4", 2 + 28 + 1 + 4)
 
+    # ---------------------------------------------------------------- R-C16-6 a step that was solved is never lost to a crash in the bookkeeping
+    # (a) the solver helper may return None as iteration count (scipy solvers): run_sim must not hand it to a format spec
+    sh = repo.func(CORE, "_solver_helper")
+    rsf = repo.func(CORE, "WNTRSimulator.run_sim")
+    chk.fn(sh, rsf)
+    none_count = False
+    for a in walk(sh):
+        if isinstance(a, ast.Assign) and isinstance(a.value, ast.Tuple) and len(a.value.elts) == 3 and const(a.value.elts[2], 1) is None:
+            none_count = True
+        if isinstance(a, ast.Return) and isinstance(a.value, ast.Tuple) and len(a.value.elts) == 3 and const(a.value.elts[2], 1) is None:
+            none_count = True
+    unpack = [a for a in walk(rsf) if isinstance(a, ast.Assign) and isinstance(a.targets[0], ast.Tuple) and len(a.targets[0].elts) == 3 and "_solver_helper" in unparse(a.value)]
+    if not unpack:
+        raise AnchorError("run_sim: unpacking of _solver_helper's triple not found")
+    cnt_name = unparse(unpack[0].targets[0].elts[2])
+    import re as _re
+    for c in calls(rsf):
+        if isinstance(c.func, ast.Attribute) and c.func.attr == "format" and isinstance(c.func.value, ast.Constant) and isinstance(c.func.value.value, str):
+            for i, a in enumerate(c.args):
+                if any(isinstance(x, ast.Name) and x.id == cnt_name for x in ast.walk(a)):
+                    bare = isinstance(a, ast.Name)
+                    spec = _re.search(r"\{%d:([^}]+)\}" % i, c.func.value.value)
+                    chk.expect(not (none_count and spec and bare), "R-C16-6", "run_sim does not apply a format spec to the iteration count, which is None for scipy solvers", loc(rsf, c),
+                               "_solver_helper returns (status, message, None) for fsolve / newton_krylov / ...; '{%d:%s}'.format(None) raises TypeError, so a step rescued by a scipy "
+                               "(backup) solver crashes the run instead of being reported" % (i, spec.group(1) if spec else ""), expected="str(%s)" % cnt_name, found=norm(c))
+    # (b) the report timestep is classified by one predicate in the set-up and in the loop
+    so = repo.func(CORE, "WNTRSimulator._setup_sim_options")
+    chk.fn(so)
+
+    def classify(fn):
+        out = []
+        for n in walk(fn):
+            if isinstance(n, ast.If) and "_report_timestep" in unparse(n.test):
+                for c in ast.walk(n.test):
+                    if isinstance(c, ast.Call) and unparse(c.func) == "isinstance" and "_report_timestep" in unparse(c.args[0]):
+                        types = sorted(unparse(e) for e in (c.args[1].elts if isinstance(c.args[1], ast.Tuple) else [c.args[1]]))
+                        out.append(tuple(types))
+        return out
+    cs, cl = classify(so), classify(rsf)
+    if not cs or not cl:
+        raise ExtractError("classification of report_timestep not found (setup %s, loop %s)" % (cs, cl))
+    chk.expect(set(cs) == set(cl), "R-C16-6", "report_timestep is classified (number vs 'ALL') by the same type test in _setup_sim_options and in the simulation loop", loc(rsf),
+               "a value the set-up accepts as a number (e.g. numpy.int64) but the loop does not recognise falls into the string branch and raises AttributeError after the first step",
+               expected=sorted(set(cs)), found=sorted(set(cl)))
+    # (c) NewtonSolver.solve: a loop variable used after its loop is bound even when the loop does not run (MAXITER = 0)
+    nsf = repo.func(SOLV, "NewtonSolver.solve")
+    chk.fn(nsf)
+    for lp in [n for n in nsf.body if isinstance(n, ast.For) and isinstance(n.target, ast.Name)]:
+        v = lp.target.id
+        end = max(x.lineno for x in ast.walk(lp) if hasattr(x, "lineno"))
+        later = [x for x in walk(nsf) if isinstance(x, ast.Name) and x.id == v and isinstance(x.ctx, ast.Load) and x.lineno > end]
+        if not later:
+            continue
+        pre = [a for a in nsf.body if isinstance(a, ast.Assign) and a.lineno < lp.lineno and any(isinstance(t, ast.Name) and t.id == v for t in a.targets)]
+        chk.expect(bool(pre), "R-C16-6", "NewtonSolver.solve: `%s` is defined before its loop (it is used after the loop, which may not run at all)" % v, loc(nsf, later[0]),
+                   "with MAXITER = 0 the loop body never runs and the fall-through return raises UnboundLocalError instead of reporting the failure", found="used at line %d" % later[0].lineno)
+    chk.floor("R-C16-6", 3)
+
 
 WITNESSES = [
+    dict(name="none-iteration-count-formatted", file=CORE, old="trial, str(iter_count), num_isolated_junctions", new="trial, iter_count, num_isolated_junctions", rule="R-C16-6"),
+    dict(name="report-timestep-classified-twice", file=CORE, old="            if not isinstance(self._report_timestep, str):  # same test", new="            if isinstance(self._report_timestep, (float, int)):  # same test", rule="R-C16-6"),
+    dict(name="loop-variable-unbound-for-zero-iterations", file=SOLV, old="        outer_iter = 0  # reported when the loop does not run at all (MAXITER = 0)\n", new="", rule="R-C16-6"),
     dict(name="elif-after-backup", file=CORE, old="            if solver_status == 0:\n                if self._convergence_error:", new="            elif solver_status == 0:\n                if self._convergence_error:", rule="R-C16-1"),
     dict(name="break-removed", file=CORE, old="                diagnostics.run(last_step='solve', next_step='break')\n                break\n", new="                diagnostics.run(last_step='solve', next_step='break')\n", rule="R-C16-1"),
     dict(name="error-code-not-set", file=CORE, old="                results.error_code = wntr.sim.results.ResultsStatus.error\n                diagnostics.run(last_step='solve', next_step='break')", new="                diagnostics.run(last_step='solve', next_step='break')", rule="R-C16-1"),
